@@ -2,6 +2,7 @@
 Sweep of every (system, table, event, age) x the 0.01 grid x every documented input form against exact oracles
 (checks/scoring_common.py), plus the table clauses: every table ordered, every key a valid normalised event code
 that is reachable through the public function."""
+from checks import crossapi
 from vlib import common
 from vlib import orderpass
 from vlib.common import Report, Violation, HarnessError, Acc, pmap, merge
@@ -108,6 +109,7 @@ def run(tier):
                         'Tyrving: one-decimal timed text is hand-timed; Bulgarian field events take numbers only; Sportshall takes text or numbers (no m:ss)',
                         'equal thresholds give the higher points']
     orderpass.part(rep, sc.order_calls(), 'scoring call-order pass')
+    crossapi.part(rep, PID, tier)
     return rep.finish()
 
 
